@@ -1,4 +1,5 @@
 import HapVerif.Model.C13
+import HapVerif.Model.C13Enq
 import HapVerif.Drv.Common
 namespace HapVerif.C13
 open HapVerif.Drv
@@ -33,6 +34,30 @@ def handleD (lim : Limiter) (delta slack : Int) (durs evs impl : String) : Verdi
       oracle := if tie then none else oracleD delta slack durs evs rs, trivial := tie || evs.length < 2 }
   | _, _, _ => bad "parse"
 
+def parseSrc (s : String) : Option (Int × Src) :=
+  match s.splitOn ":" with
+  | [t, "p"] => t.toInt?.map (·, Src.notify false)
+  | [t, "f"] => t.toInt?.map (·, Src.notify true)
+  | [t, "L"] => t.toInt?.map (·, Src.leader true)
+  | [t, "l"] => t.toInt?.map (·, Src.leader false)
+  | _ => none
+
+/-- `sites <delta> <wait> <durations> <history>`: the REAL enqueue sites of the reconcile queue (`hdlr.notify` through
+a watcher event `t:p` / `t:f`, `IngressReconciler.leaderChanged(true/false)` `t:L` / `t:l`) on the real queue;
+impl output = observed run STARTS.  Model = the sites with the methods of the code that exists (`discCode`: every
+site rate-limited); the Spec (`oracleS`) is evaluated on the observed starts. -/
+def handleS (delta slack : Int) (durs evs impl : String) : Verdict :=
+  match parseList String.toInt? durs, parseList parseSrc evs, parseList parseEv impl with
+  | some durs, some evs, some rs =>
+    let lim := ingressWhen delta slack
+    let st := flushD forgetId (runAllS discCode lim forgetId durs evs)
+    let tie := st.tie || st.q.tie
+    let m := canon st.starts.reverse
+    let rs := canon rs
+    { model := showEvs m ++ (if tie then " tie" else ""), agree := tie || m = rs,
+      oracle := if tie then none else oracleS delta slack durs evs rs, trivial := tie || evs.length < 2 }
+  | _, _, _ => bad "parse"
+
 /-- `reload <interval> <arrivals>` / `ingress <delta> <wait> <arrivals>`; impl output = observed runs -/
 def handle (args : List String) (impl : String) : Verdict :=
   let go (lim : Limiter) (delta slack : Int) (evs : String) : Verdict :=
@@ -53,6 +78,9 @@ def handle (args : List String) (impl : String) : Verdict :=
     | none => bad "parse"
   | ["ingressd", d, w, durs, evs] => match d.toInt?, w.toInt? with
     | some d, some w => handleD (ingressWhen d w) d w durs evs impl
+    | _, _ => bad "parse"
+  | ["sites", d, w, durs, evs] => match d.toInt?, w.toInt? with
+    | some d, some w => handleS d w durs evs impl
     | _, _ => bad "parse"
   | ["ingress", d, w, evs] => match d.toInt?, w.toInt? with
     | some d, some w => go (ingressWhen d w) d w evs
